@@ -30,6 +30,9 @@ def registry():
     add('K.DC', K.DC, kind='DataClass', **ab)
     add('K.DC2', K.DC2, kind='DataClass', **ab)
     add('K.Outer.DC', K.Outer.DC, kind='DataClass', **ab)
+    abc = dict(params=['a', 'b', 'c'], attrs={'a': 'a', 'b': 'b', 'c': 'c'})
+    add('K.ImmKw', K.make_kw(K.ImmKw), kind='Immutable', **abc)
+    add('K.SingKw', K.make_kw(K.SingKw), kind='Singleton', **abc)
     add('K.DCsub', K.DCsub, ['a', 'b', 'c'], {'b': I(2), 'c': I(3)}, kind='DataClass', attrs={'a': 'a', 'b': 'b', 'c': 'c'})
 
     # ---- evaluable (DataClass)
